@@ -26,7 +26,7 @@ from vlib.shrink import shrink_seq
 
 ID = "C05"
 LEVEL = "fault_enumeration"
-BUDGET = {"quick": 80, "thorough": 900}
+BUDGET = {"quick": 110, "thorough": 1000}
 RULE = (
     "case = (parser variant, generated well-formed token list, 1-3 token-level "
     "faults from {delete, duplicate, swap, replace-by-vocabulary-token, truncate, "
@@ -175,13 +175,32 @@ def cases(draw, d):
                 expected=doc["expected"])
 
 
-def judge(d, toks):
-    """Returns (verdict, signature|None, detail) for one faulted token list."""
+CLASS_CFGS = {
+    # group_class / object_class substitutes that are the same class or subclasses of
+    # each other (a caller who wants plain dict-likes everywhere): what is well-formed
+    # does not depend on the classes the blocks are built with
+    "same-omd": lambda pc: dict(group_class=pc.OrderedMultiDict,
+                                object_class=pc.OrderedMultiDict),
+    "grp-is-obj": lambda pc: dict(group_class=pc.PVLObject),
+    "obj-is-grp": lambda pc: dict(object_class=pc.PVLGroup),
+    "both-agg": lambda pc: dict(group_class=pc.PVLAggregation,
+                                object_class=pc.PVLAggregation),
+}
+
+
+def judge(d, toks, classes=None):
+    """Returns (verdict, signature|None, detail) for one faulted token list.
+    *classes*: a key of CLASS_CFGS - only 'ill-formed must be rejected' is judged then
+    (the tree comparison tells groups from objects by their class)."""
     text = render(toks)
     rec = refread.recognise(toks, d)
     if rec[0] == "ambiguous":
         return ("ambiguous", None, rec[1])
-    p = budget_parser(d)
+    if classes is not None:
+        import pvl.collections as pc
+        p = budget_parser(d, **CLASS_CFGS[classes](pc))
+    else:
+        p = budget_parser(d)
     try:
         m = p.parse(text)
         outcome = "module"
@@ -198,11 +217,14 @@ def judge(d, toks):
             return ("ill-rejected", None, rec[1])
         got = nm.canon(m)
         return ("fail", f"C05/{fam}/accepted/{rec[1]}",
-                f"{d}: ill-formed ({rec[1]} at token {rec[2]}) but a module was "
+                f"{d}{' with container classes ' + classes if classes else ''}: "
+                f"ill-formed ({rec[1]} at token {rec[2]}) but a module was "
                 f"returned: {got!r}; text={text!r}")
     # well-formed
     if outcome == "raised":
         return ("wellformed-rejected", None, "")
+    if classes is not None:
+        return ("wellformed-ok", None, "")
     got = nm.canon(m)
     dd = nm.diff(rec[1], got)
     if dd is not None:
@@ -330,15 +352,20 @@ def single_faults(acc, d):
             faults += [("replace", i, k) for k in range(len(PUNCT) + 4)]
         for f in faults:
             toks = apply_faults(base, [f])
-            v, sig, detail = judge(d, toks)
-            acc.event(f"single:{v}")
-            if v == "ambiguous":
-                continue
-            text = render(toks)
-            nt = v in ("ill-rejected", "fail")
-            acc.case(key=d + "\0" + text, nontrivial=nt)
-            if v == "fail":
-                acc.fail(sig, dict(dialect=d, tokens=[list(t) for t in toks]), detail)
+            structural = f[0] in ("replace", "swap", "delete", "dup", "begin-form")
+            for classes in [None] + (list(CLASS_CFGS)[:2] if structural else []):
+                v, sig, detail = judge(d, toks, classes)
+                acc.event(f"single:{v}" + (":classes" if classes else ""))
+                if v == "ambiguous":
+                    continue
+                text = render(toks)
+                nt = v in ("ill-rejected", "fail")
+                acc.case(key=d + "\0" + str(classes) + "\0" + text, nontrivial=nt)
+                if v == "fail":
+                    case = dict(dialect=d, tokens=[list(t) for t in toks])
+                    if classes:
+                        case["classes"] = classes
+                    acc.fail(sig, case, detail)
 
 
 def _small_documents():
@@ -433,13 +460,14 @@ def _tok(t):
 
 def replay(case):
     toks = [_tok(t) for t in case["tokens"]]
-    v, sig, detail = judge(case["dialect"], toks)
+    v, sig, detail = judge(case["dialect"], toks, case.get("classes"))
     if v == "fail":
         return (sig, detail)
     return None
 
 
 def shrink(case, still_fails):
+    extra = {"classes": case["classes"]} if case.get("classes") else {}
     toks = shrink_seq(case["tokens"], lambda ts: still_fails(
-        dict(dialect=case["dialect"], tokens=ts)))
-    return dict(dialect=case["dialect"], tokens=toks)
+        dict(dialect=case["dialect"], tokens=ts, **extra)))
+    return dict(dialect=case["dialect"], tokens=toks, **extra)
